@@ -26,6 +26,8 @@ def run(ck, tier):
     _acc2.run2(ck, F, 'C02')
     from . import relations as _rel
     _rel.run(ck, F, 'C02')
+    from . import guards as _grd
+    _grd.run(ck, F, 'C02')
     from . import siblings as _sib
     _sib.check(ck, F, 'C02')
     from . import accum as _acc
